@@ -133,14 +133,15 @@ def answerVia (steps : List (Bool × Impl.Move)) (op : String) (args : List Stri
 /-- (model answer, oracle verdict) for one case line, object prefixes included.
 
 `restored MV <case>`: the implementation answers the case on the board OBJECT it gets by making MV on the validated
-board and taking it back. In the model that object is the original board (`C04.undo_restores_semilegal`: un-making
+board and taking it back. In the model that object is the original board (`C04.restored_is_original`: un-making
 restores the whole board, derived sets and hash included, for every well-formed semilegal move, legal or not;
-`C04.undo_null` for the null move), so the model
+`C04.restored_null_is_original` for the null move), so the model
 answer and the oracle verdict are those of the inner case.
 
 `reached MV <op> RAW <args>`: the implementation answers on the board object `Board::make_move` returned. In the
 model a legal move leads from a valid board to a valid board whose derived state is the one validation would build
-from its raw contents (`valid_make`, `Valid.shape.cons`), so the inner case is answered for the raw board after the move;
+from its raw contents (`C04.reached_validates`; `C04.null_validates` for the null step), so the inner case is answered for
+the raw board after the move;
 `n/a` when the move is not well-formed or not legal (oracle: it must then not be a legal move of the rules).
 
 `via STEPS <op> RAW <args>`: a sequence of such steps (`u<MV>` = make and take back, `m<MV>` = make), e.g. an un-made
